@@ -20,7 +20,7 @@ theorem lookup_map_entryPair (cs : List HTree) (key : Nat) :
   | cons c cs ih =>
     simp only [List.map_cons, List.find?_cons]
     by_cases hk : entryKey c.value = key
-    · simp [entryPair, List.lookup_cons, hk]
+    · simp [entryPair, hk]
     · have h1 : (key == entryKey c.value) = false := by
         simp only [beq_eq_false_iff_ne, ne_eq]; exact fun h => hk h.symm
       have h2 : (entryKey c.value == key) = false := by simpa using hk
